@@ -102,6 +102,7 @@ def replay(case):
 def split_traces(tr):
     """one RelTrace line per (reference, observations) pair"""
     a = {k: tr[k] for k in ("tid", "kind", "q", "sc", "scale", "ref", "obs")}
+    a["refusals"] = False
     b = dict(a, tid=tr["tid"] + 1, ref=tr["ref2"], obs=tr["obs2"])
     out = [a, b]
     for i, tl in enumerate(tr.get("truth", [])[:17]):
@@ -159,14 +160,14 @@ def run_family(pid, focus, tiers, tier="quick", seed=0, replay_path=None, widen=
     for r in results:
         chk.add_tlc("RelTrace", r)
     chk.traces = len(lines)
-    for tid, clause in rejects.items():
+    for tid, clause in [(tid, part) for tid, joined in rejects.items() for part in joined.split(";")]:
         c, tr = bytid[tid]
         pub = {k: c[k] for k in ("q", "sc", "dseed", "np1", "np2", "cuts1", "stages", "widen", "truth")}
         which = "A" if tid % 20 == 0 else "B" if tid % 20 == 1 else "truth"
         if which == "truth":
             tl = tr["truth"][tid % 20 - 2]
             clause = f"truth@{tl['depth']}:{tl['label']}:{clause}"
-        chk.fail(clause, dict(pub, ops=rel.ops_of(c["q"]), layout=which), {"msgs": tr.get("msgs"), "layout": which})
+        chk.fail(clause, dict(pub, ops=rel.ops_of(c["q"]), layout=which, groupby_fs=rel.groupby_fs(c["q"])), {"msgs": tr.get("msgs"), "layout": which})
     chk.extra["unbuildable_queries"] = unb
     chk.extra["reference_failed"] = sum(1 for ln in lines if ln["kind"] != "truth" and not ln["ref"]["ok"])
     chk.extra["truth_lines"] = sum(1 for ln in lines if ln["kind"] == "truth")
